@@ -405,7 +405,8 @@ def execute(case, final_drain=True, drain_timers=False):
 
 def signals_of(trace, side, member):
     hdl = trace.world.ends[side].hdl
-    return [e for e in trace.events if e['kind'] == 'signal' and e['obj'] is hdl and e['member'] == member]
+    # (what an observer on the bus gets: a signal raised by an object that has left the bus goes nowhere)
+    return [e for e in trace.events if e['kind'] == 'signal' and e['obj'] is hdl and e['member'] == member and e.get('exported', True)]
 
 
 def escapes_to(out, trace, prefix='escape'):
